@@ -257,6 +257,80 @@ func init() {
 	})
 }
 
+func init() {
+	addSpec(&propSpec{
+		ID:          "C16",
+		Rule:        "dependent-block frames from the independent encoder (content and sequences generated together): block-size codes {4,5,6,7}, content 100 B .. 1 MB, block sizes from 5 bytes to the maximum (a 'tiny blocks' regime of 5..300-byte blocks included), offsets drawn from {maximum reachable, 1..16, into the previous block, two or more blocks back, exactly 65535, random}, match lengths up to 70000 (spanning blocks), 0/15/40% stored blocks, with/without block and content checksums and content size; each frame is re-validated by the independent parser, then read by Readers with concurrency {1,2,4,GOMAXPROCS} through WriteTo and Read with small / >= block (direct path) / mixed buffers, in the assembly and the noasm build; plus the reference encoder's linked golden file against its independent-blocks sibling. A cell is (block-size code, content size class, block regime, stored share, checksums, concurrency, read mode).",
+		Assumptions: baseAssumptions,
+		Variants:    both,
+		Require: func(rs *runState) string {
+			for _, k := range []string{"matches_from_two_or_more_blocks_back", "matches_offset_65535", "stored_blocks", "frames_crossing_trim_threshold_with_small_blocks", "matches_straddling_block_start"} {
+				if rs.counters[k] == 0 {
+					return "the generated frames never exercised " + k
+				}
+			}
+			return ""
+		},
+	})
+}
+
+func init() {
+	addSpec(&propSpec{
+		ID:          "C18",
+		Rule:        "sources {0,1,100,65535,65536,65537,131072,300K bytes} x {compressible, incompressible} x 6 option sets (block size, block checksum, content checksum, content size, level); read sizes cycle through triples (a,b,c) over the classes {0,1,2,3,6,7,8,100,4096, first block record -1/=/+1, header+first block record -1/=/+1 (buffer boundary coinciding with a block boundary), header+2 records, whole frame, frame+1, frame+100}: ALL triples for sources <= 70000 bytes, 40 seeded triples per chunk otherwise; every fifth pattern with a fragmenting source (1-byte, random, data+EOF, zero-length reads); plus every call index of the source failing (with and without data) for a 3-size cycle. Per-call monitor: 0<=n<=len(p), progress when len(p)>0; the concatenation up to io.EOF must be one frame accepted by the independent parser in strict-writer mode (no trailing bytes) reflecting the options and decoding to the source; injected source errors must come back (errors.Is). A cell is (options, source, size classes of the triple, source mode).",
+		Assumptions: baseAssumptions,
+		Require: func(rs *runState) string {
+			if rs.counters["source_fault_points"] == 0 || rs.counters["read_patterns"] < 1000 {
+				return "too few read patterns / no source fault points were executed"
+			}
+			return ""
+		},
+	})
+}
+
+func init() {
+	addSpec(&propSpec{
+		ID:          "C15",
+		Level:       "fault_enumeration",
+		Rule:        "Writer: 5 call scripts (Write/Flush mix, one ReadFrom, small flushed writes, empty, one big Write) x 12 configurations that change the sink call pattern (concurrency 1/4, block checksum, content size, legacy, no content checksum); a dry run counts the sink calls N, then EVERY k in 1..N (sampled above 400) is executed with the sink failing from call k on (persistent; each failing call returns its own error value) and with only call k failing (transient), each with 0 bytes and with a proper prefix accepted; the script stops at the first error and then calls Close. Judged: some call returns an error that errors.Is the FIRST injected one; (persistent) the sink holds a prefix of the fault-free output. Reader: every source call index k of every seed frame x {conc 1,4} x {WriteTo, Read small, Read >= block}, failing with 0 bytes and together with data: never a clean end, the error is an injected one, delivered bytes are a prefix. Fragmentation: every seed x reader mode x {single bytes, random sizes, data together with io.EOF, interleaved zero-length reads} must decode exactly as with a plain source. A cell is (side, configuration/seed, script or read mode, fault model, position class of k).",
+		Assumptions: append([]string{"a source call that fails but also fills the request completely is treated as a success by io.ReadFull; the persistent fault is then reported with the next call's error value, so on the reader side any injected error of the same source is accepted"}, baseAssumptions...),
+		Require: func(rs *runState) string {
+			if rs.counters["sink_fault_points"] < 500 || rs.counters["source_fault_points"] < 500 || rs.counters["fragmented_reads"] < 100 {
+				return "too few fault points enumerated"
+			}
+			return ""
+		},
+	})
+}
+
+func init() {
+	addSpec(&propSpec{
+		ID:          "C08",
+		Rule:        "built with -race and the verif hooks on (block pool replaced by a quarantining pool that poisons released buffers with 0xDB and verifies the poison when they are handed out again, LIFO or FIFO; seeded scheduling perturbation at 10 yield sites between the pipeline's critical sections in three modes: jitter, one site slowed for the whole run, none; event log). Writer: 7 call scripts {Write partitions, Write+Flush mid-stream, ReadFrom, Close->Reset->reuse, Reset without Close, sink failing at a seeded call, slow sink} x concurrency {2,3,4,16} x block counts {0,1,2,c-1,c,c+1,4c} (pairwise distinct 64 KiB blocks, so a reorder shows in the bytes) x 6 (thorough 120) perturbation seeds, OnBlockDone installed; Reader: concurrency {2,4,16} x {Read small, Read >= block, WriteTo} x {valid frame, a flipped payload bit (early decoding error), source failing at a seeded call} x 2 frame sizes x seeds. Monitors: race detector reports with a library frame (logs parsed, de-duplicated); poison integrity (write after release), poison in output (read after release), double release; sink bytes equal to the sequential Writer's for the same calls; event log FIFO and exactly-once; in-process deadlock monitor (every library goroutine parked); goroutine census after Close / after EOF or error (parked leftovers = leak). A cell is (object, script/condition, concurrency, block count, perturbation mode) or a distinct interleaving (hash of the hook event order).",
+		Assumptions: append([]string{"interleavings are sampled under perturbation, not enumerated; the evidence reports how many distinct ones were observed", "goroutines left behind when the caller abandons a Reader mid-stream are outside the statement and not judged"}, baseAssumptions...),
+		Variants:    func(string) []string { return []string{"race"} },
+		Watchdog:    func(tier string) int { return 3000 },
+		Post: func(rs *runState) {
+			n := 0
+			for k := range rs.cells {
+				if strings.HasPrefix(k, "interleaving/") {
+					n++
+				}
+			}
+			rs.counters["distinct_interleavings"] = int64(n)
+		},
+		Require: func(rs *runState) string {
+			if rs.counters["hook_events"] < 1000 || rs.counters["poison_checks"] == 0 || rs.counters["goroutine_censuses"] == 0 {
+				return "hooks were not reached (no events / poison checks / censuses)"
+			}
+			if rs.counters["race_logs_scanned"] == 0 && rs.counters["race_reports"] == 0 {
+				// no log file is written when there is no report; that is fine
+			}
+			return ""
+		},
+	})
+}
+
 // c12Join compares the result logs of the asm and noasm workers shard by shard.
 func c12Join(rs *runState) {
 	for shard := 0; shard < 16; shard++ {
